@@ -241,10 +241,7 @@ Proof.
 Qed.
 
 (* ---------- Skip ---------- *)
-Definition skip_items_ok (es : list expr) :=
-  forall e, In e es -> always e = false -> forall p v q, pg e p = Match v q -> q <> p.
-
-Lemma skip_pass_ok : forall es cp s, Forall W es -> sub E (locals s) -> pos s = cp -> skip_items_ok es ->
+Lemma skip_pass_ok : forall es cp s, Forall W es -> sub E (locals s) -> pos s = cp ->
   match skip_first pg es cp, skip_pass true ex cp es s with
   | inr Fuel, None => True
   | inr Raise, _ => True
@@ -252,8 +249,7 @@ Lemma skip_pass_ok : forall es cp s, Forall W es -> sub E (locals s) -> pos s = 
   | inl (Some q), Some (true, s') => pos s' = q /\ sub E (locals s')
   | _, _ => False end.
 Proof.
-  induction es as [|e es IHes]; intros cp s HF HS Hp Hok; cbn [skip_first skip_pass]; auto.
-  assert (Hok' : skip_items_ok es) by (intros e0 Hin; apply Hok; right; exact Hin).
+  induction es as [|e es IHes]; intros cp s HF HS Hp; cbn [skip_first skip_pass]; auto.
   inversion HF as [|? ? HWe HWes]; subst.
   destruct (IH_cases e s HWe HS) as
     [(Hp & He)|[Hp|[(v & p' & s1 & Hp & He & H1 & H2 & H3 & H4)|(s1 & Hp & He & H1 & H2 & H3 & H4)]]];
@@ -262,22 +258,23 @@ Proof.
     + destruct (Nat.eqb_spec (pos s1) (pos s)) as [Ex|Ex]; cbn [negb].
       * apply IHes; auto.
       * auto.
-    + rewrite H1. destruct (Nat.eqb_spec (pos s1) (pos s)) as [Ex|Ex]; [|auto].
-      exfalso. eapply (Hok e (or_introl eq_refl) Ea); eauto.
+    + rewrite H1. destruct (Nat.eqb_spec (pos s1) (pos s)) as [Ex|Ex]; cbn [negb].
+      * apply IHes; auto.
+      * auto.
   - rewrite H2, H1. apply IHes; auto.
     + destruct (part e); cbn; auto.
     + destruct (part e) eqn:Ep; cbn; auto.
 Qed.
 
-Lemma skip_ok : forall k es s, Forall W es -> sub E (locals s) -> skip_items_ok es ->
+Lemma skip_ok : forall k es s, Forall W es -> sub E (locals s) ->
   match skip_spec pg k es (pos s), skip_loop true ex k es s with
   | Fuel, OutOfFuel => True
   | Raise, _ => True
   | Match v p', Done s' => status s' = true /\ result s' = v /\ pos s' = p' /\ sub E (locals s')
   | _, _ => False end.
 Proof.
-  induction k as [|k IHk]; intros es s HF HS Hok; cbn [skip_spec skip_loop]; auto.
-  pose proof (skip_pass_ok es (pos s) s HF HS eq_refl Hok) as H.
+  induction k as [|k IHk]; intros es s HF HS; cbn [skip_spec skip_loop]; auto.
+  pose proof (skip_pass_ok es (pos s) s HF HS eq_refl) as H.
   destruct (skip_first pg es (pos s)) as [[q|]|[| | |]], (skip_pass true ex (pos s) es s) as [[[|] s1]|];
     try contradiction; auto.
   all: try (destruct H as (H & HL); subst q; apply IHk; auto).
@@ -430,7 +427,6 @@ Fixpoint wf (sc : list nat) (e : expr) : Prop :=
       es <> [] /\ (fix all (l : list expr) : Prop := match l with [] => True | x :: l' => wf sc x /\ all l' end) es
   | Skip es =>
       (fix all (l : list expr) : Prop := match l with [] => True | x :: l' => wf sc x /\ all l' end) es
-      /\ forall n E, skip_items_ok (PEG n E) es
   | Discard a b _ | Apply a b _ | Where a b | Sep a b _ _ _ _ => wf sc a /\ wf sc b
   | Opt e | Expect e | ExpectNot e => wf sc e
   | Rep e mn mx => wf sc e
@@ -660,7 +656,8 @@ Qed.
 (* the callee's environment binds exactly the parameters (plus what was accumulated) *)
 Lemma bind_args_dom L : forall args ps acc en, bind_args L ps args acc = Some en ->
   forall x, (exists v, lookup x en = Some v) <-> (In x ps \/ exists v, lookup x acc = Some v).
-Proof.
+Proof using.
+  clear Hg Hfuns Hign g funs ignored t rx.
   induction args as [|[[k|] a] args IH]; intros ps acc en H x; cbn [bind_args] in H.
   - destruct ps; [|discriminate]. inversion H; subst. cbn. tauto.
   - destruct (existsb (Nat.eqb k) ps) eqn:Ek; [|discriminate].
@@ -679,7 +676,7 @@ Proof.
     + split; [intros [Hx|Hx]; auto | intros [[Hx|Hx]|Hx]; auto; congruence].
 Qed.
 Lemma scope_of_bind_args L ps args en : bind_args L ps args [] = Some en -> scope_of ps en.
-Proof.
+Proof using.
   intros H x. rewrite (bind_args_dom L args ps [] en H x). cbn. split; [auto|]. intros [Hx|(v & Hv)]; [auto|discriminate].
 Qed.
 Lemma scope_of_combine : forall ps (vs : list value), length ps = length vs -> scope_of ps (combine ps vs).
@@ -803,8 +800,8 @@ Proof.
       rewrite ?Hp, ?He; cbn [bind]; auto.
     + rewrite H1. cbn. repeat split; auto; discriminate.
     + rewrite H1. cbn. auto.
-  - (* Skip *) cbn [wf] in Hwf. destruct Hwf as (Hall & Hnn). apply all_Forall in Hall.
-    pose proof (skip_ok (PEG n E) (EXEC n) E (wf sc) IHl n es s Hall HS (Hnn n E)) as H. unfold agree.
+  - (* Skip *) cbn [wf] in Hwf. apply all_Forall in Hwf.
+    pose proof (skip_ok (PEG n E) (EXEC n) E (wf sc) IHl n es s Hwf HS) as H. unfold agree.
     destruct (skip_loop true (EXEC n) n es s), (skip_spec (PEG n E) n es (pos s)) as [| | |v p']; auto; try contradiction.
   - (* Longest *) cbn [wf] in Hwf. destruct Hwf as (Hne & Hall). apply all_Forall in Hall.
     destruct es as [|e1 [|e2 es]]; [congruence| |].
